@@ -15,7 +15,7 @@ use anthem::{
     verif::simplifying_fol::sigma_0::{classic, ht, intuitionistic},
 };
 
-pub const PASS_BOUND: usize = 64;
+pub const PASS_BOUND: usize = 256;
 
 type Rewrite = fn(fol::Formula) -> fol::Formula;
 
@@ -335,7 +335,9 @@ pub fn programs(seed: u64, n: usize, corpus: Option<&Path>, names: &[&str]) -> V
         let depth = g.rng.below(3);
         let max_rules = 1 + g.rng.below(4);
         g.hostile = g.rng.chance(1, 6);
-        out.push((format!("seed:{seed}:{i}"), g.program(max_rules, depth)));
+        // one in four: a program near the boundary of regularity; one in six: a dense dependency program
+        let p = match i % 12 { 3 | 7 | 11 => g.regularish_program(max_rules), 5 | 9 => g.dependency_program(), _ => g.program(max_rules, depth) };
+        out.push((format!("seed:{seed}:{i}"), p));
     }
     out
 }
@@ -490,7 +492,14 @@ fn strong(seed: u64, n: usize, corpus: Option<&Path>, text: bool) -> Vec<Case> {
     let progs = programs(seed ^ 0x55, 2 * n, corpus, &["programs"]);
     for pair in progs.chunks(2) {
         if pair.len() < 2 { break; }
-        let (origin, left) = (&pair[0].0, pair[0].1.clone());
+        let (origin, mut left) = (&pair[0].0, pair[0].1.clone());
+        if rng.chance(1, 4) {
+            // a fact over numbered constants that share a stem: the order of symbols is byte-wise (b10 < b2, r007 < r1)
+            let pool = ["b1", "b2", "b9", "b10", "b11", "b100", "b01", "b", "r1", "r007", "r07", "r10"];
+            let k = 3 + rng.below(3);
+            let terms = (0..k).map(|_| asp::Term::PrecomputedTerm(asp::PrecomputedTerm::Symbol(rng.pick(&pool).to_string()))).collect();
+            left.rules.push(asp::Rule { head: asp::Head::Basic(asp::Atom { predicate_symbol: "numbered".into(), terms }), body: asp::Body { formulas: vec![] } });
+        }
         let right = if rng.chance(1, 5) { left.clone() } else { pair[1].1.clone() };
         let dec = if rng.chance(1, 2) { Decomposition::Independent } else { Decomposition::Sequential };
         let dir = *rng.pick(&[fol::Direction::Universal, fol::Direction::Forward, fol::Direction::Backward]);
@@ -773,7 +782,12 @@ fn gen_ext_task(rng: &mut Rng, origin: String) -> ExtTask {
                 let mut gg = Gen::new(g.rng.fork());
                 gg.nvars = 3;
                 let d = 1 + gg.rng.below(2);
-                let f = rename_to_task_preds(gg.formula(d), false);
+                let mut f = rename_to_task_preds(gg.formula(d), false);
+                if g.rng.chance(1, 3) {
+                    // a lemma that mentions the constant spelled like the 0-ary output predicate
+                    f = fol::Formula::BinaryFormula { connective: fol::BinaryConnective::Disjunction, lhs: Box::new(f),
+                        rhs: Box::new(atom1("out1", fol::GeneralTerm::SymbolicTerm(fol::SymbolicTerm::Symbol("out2".into())))) };
+                }
                 po.push(fol::AnnotatedFormula { role: if sloppy && g.rng.chance(1, 6) { fol::Role::Spec } else { fol::Role::Lemma }, direction, name, formula: f });
             }
         }
